@@ -81,6 +81,21 @@ class NumpyShim(types.ModuleType):
             return self.array(obj)
         return _np.asarray(obj, dtype=dtype, **kw)
 
+    UNINITIALISED = 7.77e77
+
+    def empty(self, shape, dtype=None, **kw):
+        """Uninitialised memory holds ANY value: modelled by a poison no specification equals, so a
+        result entry that is never written (and so depends on what the allocator hands back, i.e. on the
+        history of the process) shows as a mismatch instead of passing when the page happens to be zero."""
+        if dtype in (None, float, _np.float64, object):
+            a = _np.empty(shape, dtype=object if self._symzeros else float)
+            a.fill(self.UNINITIALISED)
+            return a
+        return _np.empty(shape, dtype=dtype, **kw)
+
+    def empty_like(self, a, dtype=None, **kw):
+        return self.empty(_np.shape(a), dtype=dtype)
+
     def zeros(self, shape, dtype=None, **kw):
         if self._symzeros and dtype in (None, float, _np.float64):
             a = _np.empty(shape, dtype=object)
@@ -150,6 +165,17 @@ class NumpyShim(types.ModuleType):
         return _np.abs(x, *a, **kw)
 
     absolute = abs
+
+    def isnan(self, a, *args, **kw):
+        """On a symbol (the uninterpreted answer of an external library, contract 'a real number or NaN'):
+        an uninterpreted predicate of that symbol -- both branches of a guard `if np.isnan(v):` are
+        explored, and each must satisfy the obligations (on the NaN branch the code under analysis
+        must not use v)."""
+        if isinstance(a, R):
+            from .sym import compare, fn
+
+            return compare("<", R.const(0), fn("isnan_indicator", a))
+        return _np.isnan(a, *args, **kw)
 
     def isclose(self, a, b, rtol=1e-05, atol=1e-08, equal_nan=False):
         if isinstance(a, R) or isinstance(b, R):
